@@ -185,6 +185,10 @@ impl Point {
             let s2 = y2_z1.fp_mul(&z1_sqr);
             let h = u2.fp_sub(&u1);
             let r = s2.fp_sub(&s1);
+            // p1 = p2 in another Jacobian representation: the chord formulas would degenerate to (0, 0, 0)
+            if h.is_zero() && r.is_zero() {
+                return self.point_dbl();
+            }
             let hh = h.fp_sqr();
             let hhh = hh.fp_mul(&h);
             let v = u1.fp_mul(&hh);
